@@ -79,7 +79,7 @@ impl<T: Socket + ?Sized> Worker<T> {
         let file_path = self.file_path.clone();
         let remote_addr = self.socket.remote_addr().unwrap();
 
-        let handle = thread::spawn(move || {
+        let handle = thread::Builder::new().spawn(move || {
             let handle_send = || -> Result<(), Box<dyn Error>> {
                 self.send_file(File::open(&file_path)?, check_response)?;
 
@@ -102,7 +102,7 @@ impl<T: Socket + ?Sized> Worker<T> {
                     );
                 }
             }
-        });
+        })?;
 
         Ok(handle)
     }
@@ -114,7 +114,7 @@ impl<T: Socket + ?Sized> Worker<T> {
         let file_path = self.file_path.clone();
         let remote_addr = self.socket.remote_addr().unwrap();
 
-        let handle = thread::spawn(move || {
+        let handle = thread::Builder::new().spawn(move || {
             let handle_receive = || -> Result<(), Box<dyn Error>> {
                 self.receive_file(File::create(&file_path)?)?;
 
@@ -140,7 +140,7 @@ impl<T: Socket + ?Sized> Worker<T> {
                     }
                 }
             }
-        });
+        })?;
 
         Ok(handle)
     }
